@@ -1,4 +1,5 @@
-(* C04: a pass whose expression-level handlers introduce no statement keeps the two
+(* C04: a pass whose expression-level handlers introduce no statement (and that moves nothing into a field no
+   traversal enters) keeps the two
    well-formedness invariants the discipline relies on ("no statement below an
    expression", "only fields the grammar knows"). *)
 From Coq Require Import List String Bool.
@@ -8,5 +9,5 @@ Local Open Scope string_scope.
 
 Theorem sorts_preserved : forall G P, preserves_sorts G P = true ->
   forall t, wf G t = true -> kf G t = true -> wf G (xform G P t) = true /\ kf G (xform G P t) = true.
-Proof. intros G P H t Hw Hk. split; [apply xform_wf; auto | apply xform_kf; auto]. Qed.
+Proof. intros G P H t Hw Hk. split; [apply xform_wf; auto | apply xform_kf; auto; eapply preserves_hides; eauto]. Qed.
 Print Assumptions sorts_preserved.
